@@ -344,6 +344,42 @@ theorem runOp_inv {db : Db} {F : OpFunc} {store : List Obj} {src r : Obj} {o : O
     simp only [runOp] at h
     split at h <;> cases h
   | assign a => simp only [runOp] at h; cases h
+  | createCopyKw values unit category extra =>
+    cases extra with
+    | dimension => simp only [runOp, createCopyKw, outObj] at h; cases h
+    | value => simp only [runOp, createCopyKw, outObj] at h; cases h
+    | unitDatabase => exact createCopy_inv (outObj_ok h)
+  | len => simp only [runOp] at h; cases h
+  | iter => simp only [runOp] at h; cases h
+  | getItem index =>
+    simp only [runOp] at h
+    split at h <;> cases h
+  | getSlice s =>
+    simp only [runOp] at h
+    split at h <;> cases h
+  | checkValues values dimension =>
+    simp only [runOp] at h
+    split at h <;> cases h
+  | eq other =>
+    cases other with
+    | store idx =>
+      simp only [runOp] at h
+      split at h <;> cases h
+    | foreign => simp only [runOp] at h; cases h
+
+/-- `FixedArray.FromScalars(...)` never returns: the inherited classmethod calls the constructor without
+its `dimension` -/
+theorem fromScalars_never_ok {db : Db} {cls : ClsAttr} {scalars : List Scalar} {unit category : Option Sym}
+    {o : Obj} : fromScalars db cls scalars unit category ≠ .ok o := by
+  intro h
+  unfold fromScalars at h
+  split at h
+  · split at h
+    · cases h
+    · split at h <;> cases h
+    · cases h
+    · cases h
+  · split at h <;> cases h
 
 theorem runCmd_inv {db : Db} {F : OpFunc} {store : List Obj} {c : Cmd} {r : Obj}
     (hs : ∀ o ∈ store, Inv o.st) (h : runCmd db F store c = .ok (.obj r)) : Inv r.st := by
@@ -355,6 +391,7 @@ theorem runCmd_inv {db : Db} {F : OpFunc} {store : List Obj} {c : Cmd} {r : Obj}
     · cases h
     · rename_i s hsrc
       exact runOp_inv (hs s (List.mem_of_getElem? hsrc)) h
+  | fromScalars cls scalars unit category => exact absurd (outObj_ok h) fromScalars_never_ok
 
 theorem push_inv {store : List Obj} {out : Except ErrKind Out}
     (hs : ∀ o ∈ store, Inv o.st) (ho : ∀ r, out = .ok (.obj r) → Inv r.st) :
@@ -675,5 +712,239 @@ theorem pySet_ok {xs ys : List Rat} {i : Int} {v : Rat} (h : pySet xs i v = .ok 
   · rename_i j hj
     cases h
     exact ⟨j, hj, rfl⟩
+
+theorem pyIndex_some {α : Type} {xs : List α} {i : Int} {j : Nat} (h : normIndex xs.length i = some j) :
+    ∃ x, xs[j]? = some x ∧ pyIndex xs i = .ok x := by
+  have hj : j < xs.length := normIndex_lt h
+  refine ⟨xs[j], by simp [hj], ?_⟩
+  simp [pyIndex, h, hj]
+
+theorem pyIndex_none {α : Type} {xs : List α} {i : Int} (h : normIndex xs.length i = none) :
+    pyIndex xs i = .error .index := by
+  simp [pyIndex, h]
+
+theorem pyIndex_ok {α : Type} {xs : List α} {i : Int} {x : α} (h : pyIndex xs i = .ok x) :
+    ∃ j, normIndex xs.length i = some j ∧ xs[j]? = some x := by
+  unfold pyIndex at h
+  split at h
+  · cases h
+  · rename_i j hj
+    split at h
+    · rename_i y hy
+      cases h
+      exact ⟨j, hj, hy⟩
+    · cases h
+
+/-! ### Python slices -/
+
+theorem sliceBound_pos {len step : Int} (hl : 0 ≤ len) (hs : 0 < step) (b : Option Int) (st : Bool) :
+    0 ≤ sliceBound len step b st ∧ sliceBound len step b st ≤ len := by
+  have hneg : ¬ step < 0 := by omega
+  unfold sliceBound
+  simp only [hneg, ↓reduceIte]
+  cases b with
+  | none => cases st <;> simp <;> omega
+  | some v =>
+    simp only
+    split
+    · split <;> omega
+    · split <;> omega
+
+theorem sliceBound_neg {len step : Int} (hl : 0 ≤ len) (hs : step < 0) (b : Option Int) (st : Bool) :
+    -1 ≤ sliceBound len step b st ∧ sliceBound len step b st ≤ len - 1 := by
+  unfold sliceBound
+  simp only [hs, ↓reduceIte]
+  cases b with
+  | none => cases st <;> simp <;> omega
+  | some v =>
+    simp only
+    split
+    · split <;> omega
+    · split <;> omega
+
+theorem sliceIdx_pos_range {step len : Int} (hs : 0 < step) :
+    ∀ (fuel : Nat) (cur stop : Int), 0 ≤ cur → stop ≤ len →
+      ∀ i ∈ sliceIdx step fuel cur stop, 0 ≤ i ∧ i < len := by
+  intro fuel
+  induction fuel with
+  | zero => intro cur stop _ _ i hi; simp [sliceIdx] at hi
+  | succ n ih =>
+    intro cur stop hc hst i hi
+    have hneg : ¬ step < 0 := by omega
+    simp only [sliceIdx, hneg, ↓reduceIte] at hi
+    split at hi
+    · rcases List.mem_cons.mp hi with h | h
+      · subst h; omega
+      · exact ih (cur + step) stop (by omega) hst i h
+    · simp at hi
+
+theorem sliceIdx_neg_range {step len : Int} (hs : step < 0) :
+    ∀ (fuel : Nat) (cur stop : Int), cur ≤ len - 1 → -1 ≤ stop →
+      ∀ i ∈ sliceIdx step fuel cur stop, 0 ≤ i ∧ i < len := by
+  intro fuel
+  induction fuel with
+  | zero => intro cur stop _ _ i hi; simp [sliceIdx] at hi
+  | succ n ih =>
+    intro cur stop hc hst i hi
+    simp only [sliceIdx, hs, ↓reduceIte] at hi
+    split at hi
+    · rcases List.mem_cons.mp hi with h | h
+      · subst h; omega
+      · exact ih (cur + step) stop (by omega) hst i h
+    · simp at hi
+
+/-- a zero step is `ValueError`, any other slice has indices -/
+theorem sliceIndices_zero_step {n : Nat} {s : PySlice} (h : s.step = some 0) :
+    sliceIndices n s = .error .value := by
+  simp [sliceIndices, h]
+
+theorem sliceIndices_ok_of_step {n : Nat} {s : PySlice} (h : s.step ≠ some 0) :
+    ∃ idx, sliceIndices n s = .ok idx := by
+  unfold sliceIndices
+  have : s.step.getD 1 ≠ 0 := by
+    cases hs : s.step with
+    | none => simp
+    | some v =>
+      simp only [Option.getD_some]
+      intro hv
+      subst hv
+      exact h hs
+  simp [this]
+
+/-- **every position a slice visits lies inside the sequence** -/
+theorem sliceIndices_range {n : Nat} {s : PySlice} {idx : List Int} (h : sliceIndices n s = .ok idx) :
+    ∀ i ∈ idx, 0 ≤ i ∧ i < (n : Int) := by
+  unfold sliceIndices at h
+  simp only at h
+  split at h
+  · cases h
+  · rename_i h0
+    cases h
+    have hn : (0 : Int) ≤ n := by omega
+    by_cases hs : s.step.getD 1 < 0
+    · exact sliceIdx_neg_range hs n _ _ (sliceBound_neg hn hs _ _).2 (sliceBound_neg hn hs _ _).1
+    · have hp : 0 < s.step.getD 1 := by omega
+      exact sliceIdx_pos_range hp n _ _ (sliceBound_pos hn hp _ _).1 (sliceBound_pos hn hp _ _).2
+
+theorem atPos_ok {α : Type} {xs : List α} {i : Int} {y : α} (h : atPos xs i = .ok y) :
+    0 ≤ i ∧ xs[i.toNat]? = some y := by
+  unfold atPos at h
+  split at h
+  · cases h
+  · split at h
+    · rename_i x hx
+      cases h
+      exact ⟨by omega, hx⟩
+    · cases h
+
+theorem atPos_in_range {α : Type} {xs : List α} {i : Int} (h0 : 0 ≤ i) (h1 : i < (xs.length : Int)) :
+    ∃ y, atPos xs i = .ok y := by
+  have hlt : i.toNat < xs.length := by omega
+  refine ⟨xs[i.toNat], ?_⟩
+  have hneg : ¬ i < 0 := by omega
+  simp [atPos, hneg, hlt]
+
+theorem mapE_total {α β : Type} {f : α → Except ErrKind β} :
+    ∀ {xs : List α}, (∀ x ∈ xs, ∃ y, f x = .ok y) → ∃ ys, mapE f xs = .ok ys := by
+  intro xs
+  induction xs with
+  | nil => intro _; exact ⟨[], rfl⟩
+  | cons a as ih =>
+    intro h
+    obtain ⟨y, hy⟩ := h a (by simp)
+    obtain ⟨ys, hys⟩ := ih (fun x hx => h x (by simp [hx]))
+    exact ⟨y :: ys, by simp [mapE, hy, hys]⟩
+
+/-- what `seq[start:stop:step]` is: `ValueError` for a zero step; otherwise — never an `IndexError` — the
+elements at the positions of `sliceIndices`, in that order -/
+theorem pySlice_spec {α : Type} (xs : List α) (s : PySlice) :
+    (s.step = some 0 → pySlice xs s = .error .value) ∧
+    (s.step ≠ some 0 → ∃ idx ys, sliceIndices xs.length s = .ok idx ∧ pySlice xs s = .ok ys ∧
+      ys.length = idx.length ∧
+      ∀ (k : Nat) i, idx[k]? = some i → 0 ≤ i ∧ i < (xs.length : Int) ∧ ys[k]? = xs[i.toNat]?) := by
+  constructor
+  · intro h
+    simp [pySlice, sliceIndices_zero_step h]
+  · intro h
+    obtain ⟨idx, hidx⟩ := sliceIndices_ok_of_step (n := xs.length) h
+    have hr := sliceIndices_range hidx
+    obtain ⟨ys, hys⟩ := mapE_total (f := atPos xs) (xs := idx)
+      (fun i hi => atPos_in_range (hr i hi).1 (hr i hi).2)
+    obtain ⟨hl, he⟩ := mapE_ok hys
+    refine ⟨idx, ys, hidx, by simp [pySlice, hidx, hys], hl, ?_⟩
+    intro k i hk
+    obtain ⟨y, hy, hky⟩ := he k i hk
+    have hi := hr i (List.mem_of_getElem? hk)
+    obtain ⟨_, hx⟩ := atPos_ok hy
+    exact ⟨hi.1, hi.2, by rw [hky, hx]⟩
+
+/-! ### reading a Curve -/
+
+/-- the content agrees with what the references say about it: `len(array.GetValues())` is the length the
+Curve's guard measured -/
+def Faithful (h : Content) : Prop := ∀ a : ArrRef, (h a).elems.length = a.len
+
+theorem reprLoop_spec : ∀ (z : List (Elem × Elem)) (i : Nat), i ≤ 21 →
+    reprLoop i z = (z.take (21 - i), decide (21 - i < z.length)) := by
+  intro z
+  induction z with
+  | nil => intro i _; simp [reprLoop]
+  | cons p rest ih =>
+    intro i hi
+    unfold reprLoop
+    by_cases h : 20 < i
+    · have : i = 21 := by omega
+      subst this
+      simp
+    · have hi' : i + 1 ≤ 21 := by omega
+      rw [ih (i + 1) hi']
+      simp only [h, ↓reduceIte]
+      have h1 : 21 - i = (21 - (i + 1)) + 1 := by omega
+      rw [h1, List.take_succ_cons]
+      simp only [List.length_cons]
+      congr 1
+      simp only [decide_eq_decide]
+      omega
+
+theorem curve_next_inv (c : Curve) (o : CurveOp) (h : CInv c) : CInv (c.next o) := by
+  cases o with
+  | set s =>
+    simp only [Curve.next, Curve.after]
+    cases hs : c.apply s with
+    | error e => exact h
+    | ok c' =>
+      cases s with
+      | image a =>
+        simp only [Curve.apply, Curve.setImage, checkLen] at hs
+        split at hs
+        · cases hs
+        · rename_i hl
+          split at hl
+          · cases hl
+          · rename_i hne
+            cases hs
+            simp only [CInv]
+            simpa using hne
+      | domain a =>
+        simp only [Curve.apply, Curve.setDomain, checkLen] at hs
+        split at hs
+        · cases hs
+        · rename_i hl
+          split at hl
+          · cases hl
+          · rename_i hne
+            cases hs
+            simp only [CInv]
+            simpa using hne
+  | getItem i => exact h
+  | getSlice s => exact h
+  | length => exact h
+  | repr => exact h
+
+theorem curve_runOps_inv : ∀ (os : List CurveOp) (c : Curve), CInv c → CInv (c.runOps os) := by
+  intro os
+  induction os with
+  | nil => intro c h; exact h
+  | cons o os ih => intro c h; exact ih (c.next o) (curve_next_inv c o h)
 
 end Barril.Fixed
